@@ -157,6 +157,7 @@ def shape_relations(rng, tier):
     ev = [{"e": "init"}]
     try:
         ars = [1.0, 1.0 + 1e-9, 1.0 + 1e-6, 1.001, 1.1, 1.5, 2.0, 3.0, 5.0, 10.0, 30.0] + [rng.uniform(1.0, 20.0) for _ in range(6 if tier == "quick" else 60)]
+        ars += [50.0, 72.0, 85.0, 100.0] + [rng.uniform(20.0, 100.0) for _ in range(4 if tier == "quick" else 40)]      # the documented range of aspect ratios ends at 100
         for name, D in KINDS.items():
             d = D()
             prev = None
